@@ -2,6 +2,7 @@ package worlds
 
 import (
 	"fmt"
+	"runtime"
 	"sync"
 	"sync/atomic"
 	"time"
@@ -149,6 +150,13 @@ func runC12(w *mon.Worker) {
 	}
 	for i := 0; i < w.Share(w.Scale(32, 400)); i++ {
 		w.Case("deque-conservation", nil, dequeConservationCase)
+	}
+	mon.ClearProb()
+	for i := 0; i < w.Share(w.Scale(32, 800)); i++ {
+		w.Case("lifo-last-element", nil, lifoLastElementCase)
+	}
+	for i := 0; i < w.Share(w.Scale(64, 1600)); i++ {
+		w.Case("deque-always-empty", nil, dequeAlwaysEmptyCase)
 	}
 	mon.ClearProb()
 }
@@ -582,4 +590,103 @@ func dequeConservationCase(c *mon.Case) {
 		return
 	}
 	c.Count("conservation_values", int64(ng*per))
+}
+
+// lifoLastElementCase: the stack never holds more than one element (the pusher waits until its element was taken) while
+// several poppers pop continuously: every element is "the last one" and is raced for. Each is popped exactly once; nobody panics.
+func lifoLastElementCase(c *mon.Case) {
+	r := c.Rng
+	n := 1500 + r.IntN(1500)
+	np := 3 + r.IntN(3)
+	var q cqueue.AtomicLIFO[int]
+	var taken atomic.Int64
+	var stop atomic.Bool
+	seen := make([]atomic.Int32, n+1)
+	var wg sync.WaitGroup
+	for p := 0; p < np; p++ {
+		wg.Add(1)
+		go func() {
+			defer wg.Done()
+			for !stop.Load() {
+				v := q.Pop()
+				if v == 0 {
+					continue
+				}
+				if v < 0 || v > n {
+					c.Violate("conservation", "lifo-foreign-element", "a Pop returned %d, which was never pushed", v)
+					return
+				}
+				if seen[v].Add(1) != 1 {
+					c.Violate("conservation", "lifo-element-duplicated", "element %d was popped twice", v)
+				}
+				taken.Add(1)
+			}
+		}()
+	}
+	deadline := time.Now().Add(20 * time.Second)
+	for v := 1; v <= n && !c.Violated(); v++ {
+		q.Push(v)
+		for taken.Load() < int64(v) {
+			if time.Now().After(deadline) {
+				stop.Store(true)
+				wg.Wait()
+				if seen[v].Load() == 0 && !c.Violated() {
+					c.Violate("conservation", "lifo-element-lost", "element %d was pushed onto the empty stack and %d poppers popped continuously for seconds, but nobody got it", v, np)
+				}
+				return
+			}
+			runtime.Gosched()
+		}
+	}
+	stop.Store(true)
+	wg.Wait()
+	c.Count("lifo_last_element_races", int64(n))
+	c.Evals(n)
+	c.NonTrivial()
+	c.Mix(uint64(np))
+}
+
+// dequeAlwaysEmptyCase: a list that never holds an element is empty at every instant, whatever else is going on.
+func dequeAlwaysEmptyCase(c *mon.Case) {
+	r := c.Rng
+	l := linkedlist.NewLinkedList[int]()
+	per := 2000 + r.IntN(4000)
+	var stop atomic.Bool
+	var workers, checkers sync.WaitGroup
+	for g := 0; g < 2; g++ {
+		workers.Add(1)
+		go func() {
+			defer workers.Done()
+			for i := 0; i < per; i++ {
+				if _, ok := l.Pop(); ok {
+					c.Violate("conservation", "deque-foreign-element", "Pop returned an element from a list nothing was ever pushed to")
+					return
+				}
+				l.Peek()
+				l.PeekTail()
+				if i%64 == 0 {
+					l.Reset()
+				}
+			}
+		}()
+	}
+	var checks atomic.Int64
+	for g := 0; g < 2; g++ {
+		checkers.Add(1)
+		go func() {
+			defer checkers.Done()
+			for !stop.Load() {
+				checks.Add(1)
+				if !l.IsEmpty() {
+					c.Violate("linearizability", "deque-not-linearizable", "IsEmpty returned false on a list that has never held an element (concurrent Pop/Peek/Reset calls on the empty list do not make it non-empty)")
+					return
+				}
+			}
+		}()
+	}
+	workers.Wait()
+	stop.Store(true)
+	checkers.Wait()
+	c.Count("always_empty_checks", checks.Load())
+	c.NonTrivial()
 }
